@@ -151,17 +151,42 @@ class Gen(object):
                     k["password"] = gen_text(rng, rng.randint(0, 6))
         cid = gen_text(rng, rng.randint(1, 8), alphabet=["c", "l", "1", "é", "-"])
         st = {"op": "app.call", "addr": addr, "m": "connect", "a": [cid], "k": k}
-        if cfg["faults"]["reentrant"] and rng.random() < 0.3:
+        if cfg["faults"]["reentrant"] and rng.random() < 0.4:
             then = []
             prof = cfg["profile"]
-            if prof & 1 and rng.random() < 0.6:
+            if prof & 1 and rng.random() < 0.5:
                 then.append({"op": "app.call", "addr": addr, "m": "subscribe", "a": [gen_topic(rng, True), rng.randint(0, 2)], "when": "ok"})
-            if prof & 2 and rng.random() < 0.6:
+            if prof & 2 and rng.random() < 0.5:
                 then.append({"op": "app.call", "addr": addr, "m": "publish",
                              "k": {"topic": gen_topic(rng), "message": gen_text(rng, 2), "qos": rng.randint(0, 2)}, "when": "ok"})
+            if rng.random() < 0.2:
+                # the application changes its mind as soon as it is connected
+                then.append({"op": "app.call", "addr": addr, "m": "disconnect", "when": "ok"})
+            r = rng.random()
+            if r < 0.25:
+                # ... or reacts to a refusal / timeout from inside the errback
+                then.append(self.reaction(addr, rng.choice(["publish", "connect", "subscribe"]), "err"))
             if then:
                 st["then"] = then
         return st
+
+    def reaction(self, addr, what, when):
+        """An API call the application makes from inside a callback."""
+        rng = self.rng
+        if what == "publish":
+            return {"op": "app.call", "addr": addr, "m": "publish",
+                    "k": {"topic": gen_topic(rng), "message": "rx", "qos": rng.randint(0, 2)}, "when": when}
+        if what == "subscribe":
+            return {"op": "app.call", "addr": addr, "m": "subscribe", "a": [gen_topic(rng, True), rng.randint(0, 2)], "when": when}
+        if what == "unsubscribe":
+            return {"op": "app.call", "addr": addr, "m": "unsubscribe", "a": [gen_topic(rng, True)], "when": when}
+        if what == "disconnect":
+            return {"op": "app.call", "addr": addr, "m": "disconnect", "when": when}
+        if what == "connect":
+            return {"op": "app.call", "addr": addr, "m": "connect", "a": ["retry"],
+                    "k": {"cleanStart": rng.random() < 0.5, "keepalive": self.cfg["keepalive"],
+                          "version": {"$": "v31"} if self.cfg["version"] == 3 else {"$": "v311"}}, "when": when}
+        raise ValueError(what)
 
     def publish_step(self, addr, h=None, qos=None):
         rng, cfg = self.rng, self.cfg
@@ -179,9 +204,12 @@ class Gen(object):
         if h:
             st["h"] = h
         if cfg["faults"]["reentrant"] and rng.random() < 0.15 and qos > 0:
-            st["then"] = [{"op": "app.call", "addr": addr, "m": "publish",
-                           "k": {"topic": gen_topic(rng), "message": "re", "qos": rng.randint(0, 2)},
-                           "when": rng.choice(["ok", "ok", "err", "any"])}]
+            if rng.random() < 0.25:
+                st["then"] = [self.reaction(addr, "disconnect", "ok")]
+            else:
+                st["then"] = [{"op": "app.call", "addr": addr, "m": "publish",
+                               "k": {"topic": gen_topic(rng), "message": "re", "qos": rng.randint(0, 2)},
+                               "when": rng.choice(["ok", "ok", "err", "any"])}]
         return st
 
     def subscribe_step(self, addr, h=None):
@@ -198,7 +226,9 @@ class Gen(object):
             st["h"] = h
         if self.cfg["faults"]["reentrant"] and rng.random() < 0.25:
             # the application reacts to the outcome from inside the callback
-            nxt = rng.choice(["subscribe", "subscribe", "unsubscribe", "publish"])
+            nxt = rng.choice(["subscribe", "subscribe", "unsubscribe", "publish", "disconnect"])
+            if nxt == "disconnect":
+                st["then"] = [self.reaction(addr, "disconnect", "ok")]
             if nxt == "subscribe":
                 st["then"] = [{"op": "app.call", "addr": addr, "m": "subscribe", "a": [gen_topic(rng, True), rng.randint(0, 2)],
                                "when": rng.choice(["ok", "ok", "any"])}]
@@ -270,14 +300,24 @@ class Gen(object):
                 return self.gate_call(addr, "cur", w, L)
             if wc is not None and rng.random() < 0.15 and w.pending_timers():
                 return {"op": "time.fire", "tie": rng.randint(0, 3)}
-            return {"op": "app.build", "addr": addr, "on_pub": cfg["handlers"][0], "on_disc": cfg["handlers"][1],
-                    "on_made": cfg["handlers"][2]}
+            b = {"op": "app.build", "addr": addr, "on_pub": cfg["handlers"][0], "on_disc": cfg["handlers"][1],
+                 "on_made": cfg["handlers"][2]}
+            if F["reentrant"] and cfg["handlers"][0] and rng.random() < 0.25:
+                # what the application does from inside onPublish (I12 keeps C03 runs free of this)
+                what = rng.choice(["publish", "publish", "disconnect", "unsubscribe"])
+                if what == "publish" and not cfg["profile"] & 2:
+                    what = "unsubscribe"
+                b["on_pub_then"] = [self.reaction(addr, what, "any")]
+            return b
         phase = wc.transport.phase
         st = lc.state if lc is not None else "built"
         # ---- closing interval
         if phase.startswith("closing"):
             if F["closing_activity"] and rng.random() < 0.6:
-                k = _w(rng, [("fire", 4), ("publish", 3), ("sub", 1), ("advance", 1), ("disc", 0.5)])
+                k = _w(rng, [("fire", 4), ("publish", 3), ("sub", 1), ("advance", 1), ("disc", 0.5), ("setw", 1.2)])
+                if k == "setw":
+                    return {"op": "app.call", "addr": addr, "m": rng.choice(["setWindowSize", "setWindowSize", "setTimeout"]),
+                            "a": [rng.choice([1, 2, 4, 16])]}
                 if k == "fire" and w.pending_timers():
                     return {"op": "time.fire", "tie": rng.randint(0, 3)}
                 if k == "publish" and cfg["profile"] & 2:
